@@ -134,13 +134,12 @@ def folds_guarded(chk, facts):
     n = 0
     for vi, arm in sorted(ev["arms"].items()):
         vn = r["variants"][vi]["name"]
-        if vn not in ("And", "Or"):
-            continue
         region = arm["region"]
         sws = [sw for sw in shape.variant_switches(f, "tpe::residual::Residual") if sw[0] in region and part_vi in sw[2]]
         first = [sw for sw in sws if all(cfg.dominates(f, sw[0], o[0]) for o in sws)]
         if not first:
-            chk.ob(rule, vn, False, "no match on the interpreted left operand in the %s arm" % vn, where=f.where(), fn=f.name)
+            if vn in ("And", "Or"):
+                chk.ob(rule, vn, False, "no match on the interpreted left operand in the %s arm" % vn, where=f.where(), fn=f.name)
             continue
         b, scrut, arms, other = first[0]
         preg = cfg.dominated_region(f, arms[part_vi])
@@ -151,9 +150,15 @@ def folds_guarded(chk, facts):
             if t[0] == "call" and callee(t) == mk_concrete and t[3] == [0]:
                 sites += 1
                 guards = [(panics.cond_desc(f, d), [str(v) for v, _ in taken]) for d, taken in cfg.guard_edges(f, bb) if d in preg]
-                if not any("can_error_assuming_well_formed" in g and tk == ["0"] for g, tk in guards):
-                    bad.append(t[1].get("l"))
+                if any("can_error_assuming_well_formed" in g and tk == ["0"] for g, tk in guards):
+                    continue
+                # `principal is T` / `resource is T`: the request's own type decides, whatever the unknown id is
+                if vn == "Is" and any(g.startswith("disc:Var<") for g, tk in guards):
+                    continue
+                bad.append(t[1].get("l"))
+        if vn not in ("And", "Or") and not sites:
+            continue
         n += 1
-        chk.ob(rule, vn, not bad and sites >= 1, "%s with a partial left operand: %d concrete answer(s), each under `!can_error_assuming_well_formed(left)`%s" % (vn, sites, "" if not bad else " — except at L%s" % bad),
+        chk.ob(rule, vn, not bad and sites >= 1, "%s with a partial first operand: %d concrete answer(s), each under `!can_error_assuming_well_formed(..)`%s%s" % (vn, sites, " or decided by the request's own principal / resource type" if vn == "Is" else "", "" if not bad else " — except at L%s" % bad),
                where=f.where(bad[0] if bad else None), fn=f.name, key="%s:%s" % (rule, vn))
     chk.floor(rule, "connectives", n, 2)
